@@ -28,7 +28,20 @@ let () =
   reg "packHalf4x16" (function [a; b; c; d] -> [packHalf4x16 a b c d] | _ -> failwith "arity");
   reg "unpackHalf4x16" (function [p] -> unpackHalf4x16 p | _ -> failwith "arity");
   reg "packHalfL" (fun l -> packHalfL l);
-  reg "unpackHalfL" (fun l -> unpackHalfL l)
+  reg "unpackHalfL" (fun l -> unpackHalfL l);
+  (* C05: arguments are  sg (0/1)  w  then the operands as w-bit patterns; results are patterns *)
+  let b z = (match z with Z0 -> false | _ -> true) in
+  let w32 = z_of_u64 32L in
+  reg "bitfieldReverse" (function [sg; w; x] -> [umod w (bitfieldReverse (b sg) w (norm (b sg) w x))] | _ -> failwith "arity");
+  reg "bitCount" (function [sg; w; x] -> [umod w32 (bitCount (b sg) w (norm (b sg) w x))] | _ -> failwith "arity");
+  reg "findLSB" (function [sg; w; x] -> [umod w32 (findLSB (b sg) w (norm (b sg) w x))] | _ -> failwith "arity");
+  reg "findMSB" (function [sg; w; x] -> [umod w32 (findMSB (b sg) w (norm (b sg) w x))] | _ -> failwith "arity");
+  reg "bitfieldExtract" (function [sg; w; x; o; n] -> [umod w (bitfieldExtract (b sg) w (norm (b sg) w x) o n)] | _ -> failwith "arity");
+  reg "bitfieldInsert" (function [sg; w; x; y; o; n] -> [umod w (bitfieldInsert (b sg) w (norm (b sg) w x) (norm (b sg) w y) o n)] | _ -> failwith "arity");
+  reg "uaddCarry" (function [x; y] -> let (r, c) = uaddCarry x y in [r; c] | _ -> failwith "arity");
+  reg "usubBorrow" (function [x; y] -> let (r, c) = usubBorrow x y in [r; c] | _ -> failwith "arity");
+  reg "umulExtended" (function [x; y] -> let (m, l) = umulExtended x y in [m; l] | _ -> failwith "arity");
+  reg "imulExtended" (function [x; y] -> let (m, l) = imulExtended (norm true w32 x) (norm true w32 y) in [umod w32 m; umod w32 l] | _ -> failwith "arity")
 
 let () =
   let counts : (string, int * int) Hashtbl.t = Hashtbl.create 64 in
